@@ -171,7 +171,20 @@ def check_lookups(M, net, rec, prop="C08", subset=None, op=None):
         # a user-defined Network subclass with lookups of its own (vf/userkinds.Motorway), kept fresh with the library's decorator
         G_ = X.raw_graph(net)
         rec.count("lookup_reads")
-        for n in list(G_._node):
+        # (the second memoised method is asked every time, the first one only every other time: at a construction call one
+        # of them may well hold nothing while the other does)
+        for u_, nb_ in list(G_._succ.items()):
+            for w_, d_ in list(nb_.items()):
+                try:
+                    got_l = net.link_between(u_, w_)
+                except Exception as e:
+                    rec.violation(f"{prop}:a subclass lookup kept fresh with invalidate_cache raised {type(e).__name__} after {_opkind(op)}", {"exception": repr(e)[:300]})
+                    got_l = id(d_.get(X.LINK))
+                if got_l != id(d_.get(X.LINK)) and _once(net, ("lookup", "link_between")):
+                    rec.violation(f"{prop}:a memoised lookup method of a Network subclass, listed in the library's invalidate_cache decorator, disagrees with the graph after {_opkind(op)}",
+                                  {"op": repr(op)[:200], "lookup": "link_between"})
+        _STATE["motorway_reads"] = _STATE.get("motorway_reads", 0) + 1
+        for n in (list(G_._node) if _STATE["motorway_reads"] % 2 == 0 else []):
             exp_ = frozenset(id(w_) for w_ in G_._succ[n])
             try:
                 got_ = net.downstream(n)
